@@ -28,6 +28,23 @@ pub fn sign_pos(x: f32) -> bool {
 }
 
 /// What a vector written as `w` must read back as under `metric` (C05 / C12).
+/// f32 -> f64 that does not depend on the thread's floating-point control register: with
+/// "denormals are zero" set (a callee that changes MXCSR and does not restore it), `x as f64`
+/// turns a subnormal into 0 and the oracle would go blind together with the code under test.
+#[inline]
+pub fn wide(x: f32) -> f64 {
+    let b = x.to_bits();
+    if b & 0x7f80_0000 != 0 {
+        return x as f64;
+    }
+    let m = (b & 0x007f_ffff) as f64 * f64::from_bits(0x36A0_0000_0000_0000); // * 2^-149
+    if b >> 31 == 1 {
+        -m
+    } else {
+        m
+    }
+}
+
 pub fn expected_readback(metric: Metric, w: &[f32]) -> Vec<f32> {
     if metric.is_bq() {
         w.iter().map(|x| if sign_pos(*x) { 1.0 } else { -1.0 }).collect()
@@ -67,7 +84,7 @@ pub fn distance(metric: Metric, q: &[f32], v: &[f32]) -> OracleDist {
         Metric::Euclidean => {
             let mut s = 0f64;
             for (a, b) in q.iter().zip(v) {
-                let t = *a as f64 - *b as f64;
+                let t = wide(*a) - wide(*b);
                 s += t * t;
             }
             let e = rel * s + tiny;
@@ -80,7 +97,7 @@ pub fn distance(metric: Metric, q: &[f32], v: &[f32]) -> OracleDist {
         Metric::Manhattan => {
             let mut s = 0f64;
             for (a, b) in q.iter().zip(v) {
-                s += (*a as f64 - *b as f64).abs();
+                s += (wide(*a) - wide(*b)).abs();
             }
             OracleDist { d: s, tol: rel * s + tiny, accurate: s < 1e37, zero_ok: false }
         }
@@ -88,7 +105,7 @@ pub fn distance(metric: Metric, q: &[f32], v: &[f32]) -> OracleDist {
             let mut s = 0f64;
             let mut sa = 0f64;
             for (a, b) in q.iter().zip(v) {
-                let t = *a as f64 * *b as f64;
+                let t = wide(*a) * wide(*b);
                 s += t;
                 sa += t.abs();
             }
@@ -97,9 +114,9 @@ pub fn distance(metric: Metric, q: &[f32], v: &[f32]) -> OracleDist {
         Metric::Cosine => {
             let (mut pq, mut pp, mut qq) = (0f64, 0f64, 0f64);
             for (a, b) in q.iter().zip(v) {
-                pq += *a as f64 * *b as f64;
-                pp += *a as f64 * *a as f64;
-                qq += *b as f64 * *b as f64;
+                pq += wide(*a) * wide(*b);
+                pp += wide(*a) * wide(*a);
+                qq += wide(*b) * wide(*b);
             }
             let pnqn = (pp * qq).sqrt();
             let eps = f32::EPSILON as f64;
@@ -124,7 +141,7 @@ pub fn dist_ok(o: &OracleDist, reported: f32) -> bool {
     if !o.accurate {
         return true;
     }
-    let r = reported as f64;
+    let r = wide(reported);
     if o.zero_ok && r == 0.0 {
         return true;
     }
